@@ -324,7 +324,7 @@ struct queuing_rw_mutex_impl {
                 unblock_or_wait_on_internal_lock(s, get_flag(tmp));
             } else {
                 // next->state cannot be STATE_UPGRADE_REQUESTED
-                __TBB_ASSERT( next->my_state.load(std::memory_order_relaxed) & (STATE_COMBINED_WAITINGREADER | STATE_WRITER), "unexpected state" );
+                __TBB_ASSERT( next->my_state.load(std::memory_order_relaxed) & (STATE_COMBINED_WAITINGREADER | STATE_WRITER | STATE_UPGRADE_LOSER), "unexpected state" );
                 __TBB_ASSERT( !( next->my_prev.load(std::memory_order_relaxed) & FLAG ), "use of corrupted pointer!" );
                 // Guarantee that above store of 2 into next->my_going happens-before resetting of next->my_prev
                 tricky_pointer::store(next->my_prev, nullptr, std::memory_order_release);
@@ -498,7 +498,7 @@ struct queuing_rw_mutex_impl {
                 __TBB_ASSERT(tricky_pointer::load(s.my_next, std::memory_order_relaxed) != (tricky_pointer(next)|FLAG), nullptr);
                 goto requested;
             } else {
-                __TBB_ASSERT( n_state & (STATE_WRITER | STATE_UPGRADE_WAITING), "unexpected state");
+                __TBB_ASSERT( n_state & (STATE_WRITER | STATE_COMBINED_UPGRADING), "unexpected state");
                 __TBB_ASSERT( (tricky_pointer(next)|FLAG) == tricky_pointer::load(s.my_next, std::memory_order_relaxed), nullptr);
                 tricky_pointer::store(s.my_next, next, std::memory_order_relaxed);
             }
